@@ -19,7 +19,12 @@ MANIFEST = {
     "note": "The symbolic instance sym does not satisfy IdealLaws literally (4-byte length prefixes wrap at 2^32: sym_not_ideal); the examples use the guarded instance symg (= sym on byte strings shorter than 2^32) for which symg_laws / symg_ideal are proved. A global distinctness hypothesis on fixed-length draws is unsatisfiable, so C19_fresh_sequence has a bounded variant restricted to the draws a history actually makes. That disjoint windows of the OS RNG are distinct byte strings is an assumption about os.urandom (RNG quality is outside the model). Distinctness of ephemeral PUBLIC keys needs injectivity of x -> g^x on the drawn range: partial.",
     "technique": "Coq proof (data-flow of explicit draws through the composition model; induction over call sequences) + recorded-RNG correspondence",
 }
-PARTIAL = ["C19_pubkey_partial: distinctness of the ephemeral PUBLIC keys of two calls needs injectivity of x -> g^x (resp. x -> x.G) on the drawn range; proved: the ephemeral private keys are distinct fresh draws"]
+PARTIAL = ["C19_pubkey_partial: distinctness of the ephemeral PUBLIC keys of two calls needs injectivity of x -> g^x (resp. x -> x.G) on the drawn range; proved: the ephemeral private keys are distinct fresh draws",
+           "the history theorems (protect_many, C19_fresh_sequence, C19_fresh_blobs) range over OFFLINE protect calls that name the root key (nonce mode, three draws of 32 / 12 / 32 octets per call): "
+           "calls without a root key id (always a cache miss offline), online calls and public-key-mode calls inside a history are not in the theorems; for a single call in public-key mode "
+           "C19_pubkey_partial and C19_draw_sites apply, and sequences in both modes (incl. private key lengths 9 / 255 / 521) are exercised on the implementation by fresh.stream / fresh.stream.pub",
+           "C19_windows / C19_windows_disjoint hold by construction of protect_many (the draw cursor advances by 3): that the LIBRARY never reuses or memoises a draw is what the fresh.stream units and the "
+           "regenerated draw-site kernels (k_cek_generate_draws, k_encrypt_blob_flow, flow ties of cek_generate / _encrypt_blob / new_kek) carry"]
 ASSUMPTIONS = ["os.urandom returns independent fresh bytes on every call (distinct windows are distinct)",
                "AESGCM.generate_key(256) is os.urandom(32)"]
 RULE = ("sequences of 2..40 (thorough 200) protect calls on one cache with equal and different arguments (plaintext, SID, root key given or not, clock), every os.urandom call "
